@@ -112,7 +112,7 @@ def term_root(t):
 
 
 class State:
-    __slots__ = ("iv", "alias", "cmp", "rel", "ovf", "rngs", "vf", "disc", "diff", "avail")
+    __slots__ = ("iv", "alias", "cmp", "rel", "ovf", "rngs", "vf", "disc", "diff", "avail", "castof")
 
     def __init__(self):
         self.iv = {}      # term -> (lo, hi)
@@ -126,6 +126,7 @@ class State:
         self.disc = {}    # local -> the local whose discriminant it holds
         self.diff = {}    # local -> (a_term, b_term): the local holds exactly a - b (the checked subtraction passed)
         self.avail = {}   # (op, a_term, b_term) -> term holding the result of that checked operation (available expression)
+        self.castof = {}  # local -> (source term, source type range): the local is `source as T`, T at least as wide
 
     def copy(self):
         s = State()
@@ -139,6 +140,7 @@ class State:
         s.disc = dict(self.disc)
         s.diff = dict(self.diff)
         s.avail = dict(self.avail)
+        s.castof = dict(self.castof)
         return s
 
     def kill_term(self, t):
@@ -166,6 +168,9 @@ class State:
         if self.diff:
             for k in [k for k, v in self.diff.items() if k == t or v[0] == t or v[1] == t]:
                 del self.diff[k]
+        if self.castof:
+            for k in [k for k, v in self.castof.items() if k == t or v[0] == t]:
+                del self.castof[k]
         if self.avail:
             for k in [k for k in self.avail if k[1] == t or k[2] == t]:
                 del self.avail[k]
@@ -192,6 +197,9 @@ class State:
         if self.diff:
             for k in [k for k, v in self.diff.items() if any(isinstance(x, tuple) and x[0] in ("P", "L") and x[1] == l for x in (k,) + tuple(v))]:
                 del self.diff[k]
+        if self.castof:
+            for k in [k for k, v in self.castof.items() if isinstance(v[0], tuple) and v[0][0] in ("P", "L") and v[0][1] == l]:
+                del self.castof[k]
         if self.avail:
             for k in [k for k, v in self.avail.items() if any(isinstance(x, tuple) and x[0] in ("P", "L") and x[1] == l for x in (k[1], k[2], v))]:
                 del self.avail[k]
@@ -217,6 +225,9 @@ class State:
             for t in (k,) + tuple(v):
                 if isinstance(t, tuple) and t[0] in ("P", "L"):
                     out.add(t)
+        for v in self.castof.values():
+            if isinstance(v[0], tuple) and v[0][0] in ("P", "L"):
+                out.add(v[0])
         for k, v in self.avail.items():
             for t in (k[1], k[2], v):
                 if isinstance(t, tuple) and t[0] in ("P", "L") and len(t) == 3 and not isinstance(t[1], str):
@@ -260,7 +271,7 @@ class State:
                     del self.ovf[k]
                     changed = True
         for d_self, d_o in ((self.alias, o.alias), (self.cmp, o.cmp), (self.vf, o.vf), (self.disc, o.disc),
-                            (self.diff, o.diff), (self.avail, o.avail)):
+                            (self.diff, o.diff), (self.avail, o.avail), (self.castof, o.castof)):
             for k in list(d_self):
                 if d_o.get(k) != d_self[k]:
                     del d_self[k]
@@ -963,6 +974,7 @@ class Intervals:
         new_rng = None
         new_vf = None
         new_disc = None
+        new_castof = None
         tr = self.tr[l]
         if k == "use":
             r = self.rng(st, rv[1])
@@ -1099,6 +1111,12 @@ class Intervals:
                             new_alias = sa
                 else:
                     new_iv = tr
+                    # `x as U` that may change the value (sign reinterpretation / widening of a signed value): remember the
+                    # source, a later bound on the result inside the common non-negative range bounds the source too
+                    stt = self.term_of(st, rv[2])
+                    str_ = self.tr[op_local(rv[2])] if op_local(rv[2]) is not None else (self.term_range(stt) if stt is not None and not isinstance(stt, int) else None)
+                    if stt is not None and str_ is not None and stt != l and (tr[1] - tr[0]) >= (str_[1] - str_[0]):
+                        new_castof = (stt, str_)
             elif tr is not None:
                 new_iv = tr
             elif str(rv[1]).startswith("PointerCoercion") and "Unsize" in str(rv[1]) and len(rv) > 4:
@@ -1163,6 +1181,8 @@ class Intervals:
             st.rngs[l] = new_rng
         if new_vf is not None:
             st.vf[l] = new_vf
+        if new_castof is not None:
+            st.castof[l] = new_castof
         if new_disc is not None and new_disc != l:
             st.disc[l] = new_disc
         # field 0 of an overflow tuple moved out
@@ -1386,6 +1406,14 @@ class Intervals:
         if not self._narrow_term(st, l, r):
             return False
         n = st.iv[l]
+        co = st.castof.get(l)
+        if co is not None and n[0] >= 0 and n[1] <= co[1][1]:
+            # l = src as U (U at least as wide): a result within [0, src::MAX] is the source value itself
+            if isinstance(co[0], int):
+                if self.tr[co[0]] is not None:
+                    self._narrow_term(st, co[0], n)
+            else:
+                self._narrow_term(st, co[0], n)
         root = st.alias.get(l, l)
         targets = {root}
         for k, v in st.alias.items():
